@@ -17,6 +17,26 @@ func init() { suites["C15"] = suiteC15 }
 type otherHandler interface{ other() }
 type notImpl struct{}
 
+// an interface with exported methods only (like hand-written or older generated service interfaces),
+// its implementation, and look-alikes: same method names with other signatures; one method missing
+type pubHandler interface {
+	Get(ctx context.Context, in *Msg) (*Msg, error)
+	Put(in *Msg) error
+}
+type pubImpl struct{}
+
+func (pubImpl) Get(ctx context.Context, in *Msg) (*Msg, error) { return in, nil }
+func (pubImpl) Put(in *Msg) error                              { return nil }
+
+type pubLookalike struct{}
+
+func (pubLookalike) Get(in *Msg) *Msg { return in }
+func (pubLookalike) Put(in string)    {}
+
+type pubPartial struct{}
+
+func (pubPartial) Get(ctx context.Context, in *Msg) (*Msg, error) { return in, nil }
+
 type regCarrier interface {
 	RegisterService(*grpc.ServiceDesc, interface{})
 	GetServiceInfo() map[string]grpc.ServiceInfo
@@ -30,6 +50,9 @@ func suiteC15(r *Run) {
 
 	mkDesc := func(id int, name string) *grpc.ServiceDesc {
 		d := &grpc.ServiceDesc{ServiceName: name, HandlerType: (*synthHandler)(nil), Metadata: fmt.Sprintf("file%d.proto", id)}
+		if id%2 == 1 {
+			d.HandlerType = (*pubHandler)(nil)
+		}
 		for i := 0; i < rng.Intn(5); i++ {
 			d.Methods = append(d.Methods, grpc.MethodDesc{MethodName: fmt.Sprintf("U%d_%d", id, i), Handler: func(srv interface{}, ctx context.Context, dec func(interface{}) error, interceptor grpc.UnaryServerInterceptor) (interface{}, error) {
 				return &Msg{}, nil
@@ -69,8 +92,14 @@ func suiteC15(r *Run) {
 				descs[id] = d
 				typeOK := !rng.Chance(20)
 				var h interface{} = synthImpl{}
+				if d.HandlerType == (*pubHandler)(nil) {
+					h = pubImpl{}
+				}
 				if !typeOK {
-					h = notImpl{}
+					h = []interface{}{notImpl{}, pubLookalike{}, pubPartial{}, synthImpl{}}[rng.Intn(4)]
+					if _, isSynth := h.(synthImpl); isSynth && d.HandlerType != (*pubHandler)(nil) {
+						h = notImpl{}
+					}
 				}
 				pan := ""
 				func() {
@@ -110,7 +139,9 @@ func suiteC15(r *Run) {
 								ans = fmt.Sprint(id)
 							}
 						}
-						if _, ok := h.(synthImpl); !ok {
+						_, ok1 := h.(synthImpl)
+						_, ok2 := h.(pubImpl)
+						if !ok1 && !ok2 {
 							ans += "!handler"
 						}
 					}
